@@ -66,12 +66,13 @@ FORM_SRC = {
     (2, "sec1"): "ff(_, d2)(aa)", (2, "sec2"): "ff(aa, _)(d2)", (2, "chsec1"): "(_ ff d2)(aa)",
     (2, "chsec2"): "(aa ff _)(d2)", (2, "apply"): "[aa, d2] apply ff", (2, "of"): "ff of [aa, d2]",
     (2, "juxta"): "(aa ff)(d2)", (2, "rsec"): "ff(d2)(aa)", (2, "opassign"): "xx = aa; xx ff= d2; xx",
-    (2, "splat"): "ff(...[aa, d2])",
+    (2, "splat"): "ff(...[aa, d2])", (2, "secsp1"): "ff(_, ...[d2])(aa)", (2, "secsp2"): "ff(...[aa], _)(d2)",
     (1, "call"): "ff(aa)", (1, "bang"): "ff ! aa", (1, "splat"): "ff(...[aa])", (1, "dot"): "aa . ff",
     (1, "then"): "aa then ff", (1, "sec"): "ff(_)(aa)",
     (3, "call"): "ff(aa, d2, d3)", (3, "bang"): "ff ! aa, d2, d3", (3, "splat"): "ff(...[aa, d2, d3])",
     (3, "sec1"): "ff(_, d2, d3)(aa)", (3, "sec2"): "ff(aa, _, d3)(d2)", (3, "sec3"): "ff(aa, d2, _)(d3)",
-    (3, "secall"): "ff(_, _, _)(aa, d2, d3)",
+    (3, "secall"): "ff(_, _, _)(aa, d2, d3)", (3, "secsp1"): "ff(_, ...[d2, d3])(aa)",
+    (3, "secsp3"): "ff(...[aa, d2], _)(d3)", (3, "secspmid"): "ff(aa, _, ...[d3])(d2)",
 }
 
 
